@@ -294,6 +294,8 @@ def rand_func(rng, sdim, kind=None, vshape=None, dtype=None):
     the constructors keep the dtype; all values are exactly representable in every one of them"""
     from pyiga import bspline, geometry
     kvs = tuple(rand_kv(rng, small=(sdim == 3)) for _ in range(sdim))
+    if sdim >= 2 and rng.integers(0, 4) == 0:
+        kvs = (kvs[0],) * sdim          # the same number of dofs on every axis (axis mix-ups stay shape-compatible)
     N = tuple(kv.numdofs for kv in kvs)
     kind = kind or str(rng.choice(['bsp', 'bsp', 'nurbs']))
     if dtype is None:
@@ -520,6 +522,17 @@ def run(ctx):
               geometry.circle(0.75), geometry.disk(1.5), geometry.semicircle(2.0),
               geometry.identity([(0.0, 0.5), (0.25, 1.0), (-1.0, 1.0)])]
 
+    def attempt(label, fn, *objs):
+        """preparing the requests already calls into pyiga (constructors, boundary(), grid_eval of inner maps ...): a
+        modified tree must not crash the harness — an exception there is a finding with the object that triggered it"""
+        try:
+            return fn()
+        except Exception as ex:
+            import traceback
+            ctx.violation('geo-gen:' + label, 'pyiga raised %s while the harness prepared the %s requests: %s' % (type(ex).__name__, label, str(ex)[:200]),
+                          {'traceback': traceback.format_exc()[-1500:], 'case': describe(('gen:' + label,) + tuple(objs))}, True)
+            return None
+
     def route_requests(f, tag, fmt_from=None, with_bd=True):
         # fmt_from: object holding the data f WILL have when the thunks run (call-history stream)
         n = len(f.kvs)
@@ -550,20 +563,38 @@ def run(ctx):
                 P2 = tuple(np.stack([p, p[::-1]]) for p in P)
                 add('pweval %s %s %d' % (fd, info_table(f.kvs, P2, 0), 2 * npt),
                     (lambda: f.pointwise_eval(P2).reshape((2 * npt,) + f.coeffs.shape[n:])), ('pweval', f, P2))
-        # _BoundaryFunction routes (generic boundary restriction used for reduced support)
+        # generic boundary functions (_BoundaryFunction): every axis/side of one parent, built directly and through
+        # boundary(name) of a support-restricted copy (the generic path); single-point, grid and Jacobian routes
         if with_bd and n >= 2 and not matrix_valued:
-            axis, side = int(rng.integers(0, n)), int(rng.integers(0, 2))
-            bf = geometry._BoundaryFunction(f, (axis, side))
-            fixed = float(f.support[axis][side])
-            rest = [i for i in range(n) if i != axis]
-            xb = [rand_coord(rng, f.kvs[i], 1)[0] for i in reversed(rest)]          # xyz order
-            add('bdcall %s %d %s' % (fd, axis, info_table(f.kvs, [[t] for t in xb] + [[fixed]], 0)),
-                (lambda: np.asarray(bf(*xb))), ('bdcall', f, (axis, side), xb))
-            gb = tuple(np.array(rand_coord(rng, f.kvs[i], int(rng.integers(1, 3)))) for i in rest)
-            add('bdgeval %s %d %s' % (fd, axis, info_table(f.kvs, list(gb) + [[fixed]], 0)),
-                (lambda: bf.grid_eval(gb)), ('bdgeval', f, (axis, side), gb))
-            add('bdgjac %s %d %s' % (fd, axis, info_table(f.kvs, list(gb) + [[fixed]], 1)),
-                (lambda: bf.grid_jacobian(gb)), ('bdgjac', f, (axis, side), gb))
+            def bd_routes(parent, bf, axis, fixed, supp, side):
+                rest = [i for i in range(n) if i != axis]
+
+                def crd(i, k):
+                    lo, hi = supp[i]
+                    return [lo + (hi - lo) * float(rng.integers(0, 9)) / 8.0 for _ in range(k)]
+                xb = [crd(i, 1)[0] for i in reversed(rest)]          # xyz order
+                add('bdcall %s %d %s' % (fd, axis, info_table(f.kvs, [[t] for t in xb] + [[fixed]], 0)),
+                    (lambda: np.asarray(bf(*xb))), ('bdcall', parent, (axis, side), xb))
+                gb = tuple(np.array(crd(i, int(rng.integers(1, 3)))) for i in rest)
+                add('bdgeval %s %d %s' % (fd, axis, info_table(f.kvs, list(gb) + [[fixed]], 0)),
+                    (lambda: bf.grid_eval(gb)), ('bdgeval', parent, (axis, side), gb))
+                add('bdgjac %s %d %s' % (fd, axis, info_table(f.kvs, list(gb) + [[fixed]], 1)),
+                    (lambda: bf.grid_jacobian(gb)), ('bdgjac', parent, (axis, side), gb))
+            full = tuple((float(kv.support()[0]), float(kv.support()[1])) for kv in f.kvs)
+            side = int(rng.integers(0, 2))
+            for axis in range(n):
+                bd_routes(f, geometry._BoundaryFunction(f, (axis, side)), axis, full[axis][side], full, side)
+            # support-restricted parent: boundary(name) takes the generic path, the face is the face of the box
+            g = f.copy()
+            box = []
+            for (lo, hi) in full:
+                a = int(rng.integers(0, 8)); b = int(rng.integers(a + 1, 9))
+                box.append((lo + (hi - lo) * a / 8.0, lo + (hi - lo) * b / 8.0))
+            g.support = tuple(box)
+            names = ['left', 'right', 'bottom', 'top', 'front', 'back'][:2 * n]
+            for name in [names[int(k)] for k in rng.permutation(len(names))[:2]] + [names[2 + int(rng.integers(0, 2))]]:
+                axis, sd = bspline._parse_bdspec(name, n)
+                bd_routes(g, g.boundary(name), axis, box[axis][sd], box, sd)
 
     def op_requests(f):
         n = len(f.kvs)
@@ -589,6 +620,17 @@ def run(ctx):
             A = dyadic(rng, (r, dim_out), -8, 9, 4.0)
             op('apply_matrix', 'applymat %s %s' % (fd, plist(A.tolist(), lambda row: plist(row, frac))), [A],
                (lambda: f.apply_matrix(A)))
+            # one matrix per control point ("an array of matrices ... numpy broadcasting rules apply"): full batch shape N,
+            # trailing part of N, singleton axes, and a non-broadcastable batch shape (expected answer: the error kind)
+            N = tuple(kv.numdofs for kv in f.kvs)
+            forms = [N, N[1:], tuple(1 if rng.integers(0, 2) else k for k in N), (1,) * n]
+            forms.append(tuple(k + 1 for k in N[-1:]))
+            for ab in forms:
+                r2 = int(rng.integers(1, 4))
+                AB = dyadic(rng, tuple(ab) + (r2, dim_out), -8, 9, 4.0)
+                mats = AB.reshape((-1, r2, dim_out))
+                op('apply_matrix[array]', 'applymatb %s %s %d %s' % (fd, plist(ab), r2, plist(mats.tolist(), lambda M: plist(M, lambda row: plist(row, frac)))),
+                   [AB], (lambda AB=AB: f.apply_matrix(AB)))
             if dim_out == 2:
                 ang = float(rng.integers(-16, 17)) / 4.0
                 op('rotate_2d', 'rotate %s %s %s' % (fd, frac(np.sin(ang)), frac(np.cos(ang))), [],
@@ -646,8 +688,8 @@ def run(ctx):
             ctx.count('degree=%d' % kv.p)
             if len(kv.kv) - 2 * (kv.p + 1) > len(kv.mesh) - 2:
                 ctx.count('kv with repeated interior knots')
-        route_requests(f, 'rand')
-        op_requests(f)
+        attempt('routes', lambda: route_requests(f, 'rand'), f)
+        attempt('operations', lambda: op_requests(f), f)
         if len(ctx.samples) < 3 and n == 3:
             ctx.sample({'kvs': [kv.kv.tolist() for kv in f.kvs], 'degrees': [kv.p for kv in f.kvs],
                         'coeff_shape': list(f.coeffs.shape), 'nurbs': is_nurbs(f)})
@@ -698,126 +740,136 @@ def run(ctx):
         add('copy %s' % fmt_func(s2), m3, ('hist:support', s2))
         route_requests(f, 'hist3', fmt_from=s2, with_bd=False)
 
-    nhist = 10 if ctx.tier == 'quick' else 80
-    for k in range(nhist):
-        f = rand_func(rng, int(rng.integers(1, 3)), 'nurbs' if k % 2 == 0 else 'bsp',
-                      [(), (2,), (3,)][int(rng.integers(0, 3))], dtype=[np.float64, np.float64, np.int64][int(rng.integers(0, 3))])
-        ctx.case(('hist', f.coeffs.tobytes()), True)
-        ctx.count('call histories (routes / rebind / in-place edit / support, routes after each)')
-        history_requests(f)
+    def gen_more():
+        nhist = 10 if ctx.tier == 'quick' else 80
+        for k in range(nhist):
+            f = rand_func(rng, int(rng.integers(1, 3)), 'nurbs' if k % 2 == 0 else 'bsp',
+                          [(), (2,), (3,)][int(rng.integers(0, 3))], dtype=[np.float64, np.float64, np.int64][int(rng.integers(0, 3))])
+            ctx.case(('hist', f.coeffs.tobytes()), True)
+            ctx.count('call histories (routes / rebind / in-place edit / support, routes after each)')
+            attempt('history', lambda f=f: history_requests(f), f)
 
-    # binary operations: compatible value shapes, total sdim <= 3
-    nbin = 60 if ctx.tier == 'quick' else 600
-    for _ in range(nbin):
-        s1 = int(rng.integers(1, 3)); s2 = int(rng.integers(1, 4 - s1))
-        k1 = str(rng.choice(['bsp', 'bsp', 'nurbs'])); k2 = str(rng.choice(['bsp', 'bsp', 'nurbs']))
-        m = int(rng.integers(1, 4))
-        v1 = (m,) if rng.integers(0, 4) else ()
-        v2 = (m,) if rng.integers(0, 4) else ()
-        g1 = rand_func(rng, s1, k1, v1); g2 = rand_func(rng, s2, k2, v2)
-        ctx.case(('bin', g1.coeffs.tobytes(), g2.coeffs.tobytes()), True)
-        binop_requests(g1, g2)
-    # outer operations on value shapes of different rank (numpy broadcasting of the value axes: vector x matrix,
-    # matrix x vector, scalar x matrix, and a non-broadcastable pair whose expected answer is the error kind)
-    MIXED = [((2,), (2, 2)), ((2, 2), (2,)), ((3,), (2, 3)), ((2, 3), (3,)), ((), (2, 2)), ((3, 2), ()), ((1,), (2, 3)),
-             ((2, 1), (3,)), ((2, 2), (2, 2)), ((3,), (2, 2))]
-    nmix = 3 if ctx.tier == 'quick' else 20
-    for (v1, v2) in MIXED:
-        for _ in range(nmix):
+        # binary operations: compatible value shapes, total sdim <= 3
+        nbin = 60 if ctx.tier == 'quick' else 600
+        for _ in range(nbin):
             s1 = int(rng.integers(1, 3)); s2 = int(rng.integers(1, 4 - s1))
-            g1 = rand_func(rng, s1, 'bsp', v1); g2 = rand_func(rng, s2, 'bsp', v2)
-            ctx.case(('mixed', g1.coeffs.tobytes(), g2.coeffs.tobytes()), True)
-            ctx.count('outer ops, value shapes %s x %s' % (v1, v2))
-            binop_requests(g1, g2, with_tensor=False)
-    # ---- ComposedFunction: grid_eval = geo2's scattered route at XY = geo1.grid_eval(grd) (the implementation's own doubles are
-    # the inputs of the model), grid_jacobian = matmul(jac2, jac1); boundary(bd) = geo2 o geo1.boundary(bd)
-    def unit_kvs(k):
-        return tuple(bspline.make_knots(int(rng.integers(1, 4)), 0.0, 1.0, int(rng.integers(1, 3))) for _ in range(k))
+            k1 = str(rng.choice(['bsp', 'bsp', 'nurbs'])); k2 = str(rng.choice(['bsp', 'bsp', 'nurbs']))
+            m = int(rng.integers(1, 4))
+            v1 = (m,) if rng.integers(0, 4) else ()
+            v2 = (m,) if rng.integers(0, 4) else ()
+            g1 = rand_func(rng, s1, k1, v1); g2 = rand_func(rng, s2, k2, v2)
+            ctx.case(('bin', g1.coeffs.tobytes(), g2.coeffs.tobytes()), True)
+            attempt('binary operations', lambda: binop_requests(g1, g2), g1, g2)
+        # outer operations on value shapes of different rank (numpy broadcasting of the value axes: vector x matrix,
+        # matrix x vector, scalar x matrix, and a non-broadcastable pair whose expected answer is the error kind)
+        MIXED = [((2,), (2, 2)), ((2, 2), (2,)), ((3,), (2, 3)), ((2, 3), (3,)), ((), (2, 2)), ((3, 2), ()), ((1,), (2, 3)),
+                 ((2, 1), (3,)), ((2, 2), (2, 2)), ((3,), (2, 2))]
+        nmix = 3 if ctx.tier == 'quick' else 20
+        for (v1, v2) in MIXED:
+            for _ in range(nmix):
+                s1 = int(rng.integers(1, 3)); s2 = int(rng.integers(1, 4 - s1))
+                g1 = rand_func(rng, s1, 'bsp', v1); g2 = rand_func(rng, s2, 'bsp', v2)
+                ctx.case(('mixed', g1.coeffs.tobytes(), g2.coeffs.tobytes()), True)
+                ctx.count('outer ops, value shapes %s x %s' % (v1, v2))
+                attempt('binary operations', lambda: binop_requests(g1, g2, with_tensor=False), g1, g2)
+        # ---- ComposedFunction: grid_eval = geo2's scattered route at XY = geo1.grid_eval(grd) (the implementation's own doubles are
+        # the inputs of the model), grid_jacobian = matmul(jac2, jac1); boundary(bd) = geo2 o geo1.boundary(bd)
+        def unit_kvs(k):
+            return tuple(bspline.make_knots(int(rng.integers(1, 4)), 0.0, 1.0, int(rng.integers(1, 3))) for _ in range(k))
 
-    ncomp = 14 if ctx.tier == 'quick' else 150
-    for _ in range(ncomp):
-        m = int(rng.choice([1, 2, 2, 3]))
-        s1 = int(rng.integers(1, 3 if m == 3 else 4))
-        g1 = rand_func(rng, s1, str(rng.choice(['bsp', 'bsp', 'nurbs'])), (m,), dtype=np.float64)
-        c = g1.coeffs[..., :m] if not is_nurbs(g1) else g1.coeffs_weights()[0]
-        lo, hi = float(c.min()), float(c.max())
-        g1 = g1.translate(-lo).scale(1.0 / max(hi - lo, 1.0))        # image inside the unit cube
-        kv2 = unit_kvs(m)
-        N2 = tuple(kv.numdofs for kv in kv2)
-        d2 = int(rng.integers(1, 4))
-        if rng.integers(0, 3) == 0:
-            g2 = geometry.NurbsFunc(kv2, dyadic(rng, N2 + (d2,)), rng.integers(4, 17, size=N2).astype(float) / 8.0)
-        else:
-            g2 = bspline.BSplineFunc(kv2, dyadic(rng, N2 + (d2,)))
-        comp = geometry.ComposedFunction(g2, g1)
-        ctx.case(('composed', g1.coeffs.tobytes(), g2.coeffs.tobytes()), True)
-        ctx.count('composed functions')
+        ncomp = 14 if ctx.tier == 'quick' else 150
+        def one_composed():
+            m = int(rng.choice([1, 2, 2, 3]))
+            s1 = int(rng.integers(1, 3 if m == 3 else 4))
+            g1 = rand_func(rng, s1, str(rng.choice(['bsp', 'bsp', 'nurbs'])), (m,), dtype=np.float64)
+            c = g1.coeffs[..., :m] if not is_nurbs(g1) else g1.coeffs_weights()[0]
+            lo, hi = float(c.min()), float(c.max())
+            g1 = g1.translate(-lo).scale(1.0 / max(hi - lo, 1.0))        # image inside the unit cube
+            kv2 = unit_kvs(m)
+            N2 = tuple(kv.numdofs for kv in kv2)
+            d2 = int(rng.integers(1, 4))
+            if rng.integers(0, 3) == 0:
+                g2 = geometry.NurbsFunc(kv2, dyadic(rng, N2 + (d2,)), rng.integers(4, 17, size=N2).astype(float) / 8.0)
+            else:
+                g2 = bspline.BSplineFunc(kv2, dyadic(rng, N2 + (d2,)))
+            comp = geometry.ComposedFunction(g2, g1)
+            ctx.case(('composed', g1.coeffs.tobytes(), g2.coeffs.tobytes()), True)
+            ctx.count('composed functions')
 
-        def comp_requests(comp, inner, grid, tag):
-            XY = np.asarray(inner.grid_eval(grid), dtype=float)
-            P = [XY[..., e].ravel() for e in range(XY.shape[-1])]
-            if any(p.min() < 0.0 or p.max() > 1.0 for p in P):
-                return
-            add('compgeval %s %s %s' % (fmt_func(g2), info_table(g2.kvs, P, 0), plist(XY.shape[:-1])),
-                (lambda: comp.grid_eval(grid)), ('compgeval', g2, inner, grid))
-            add('compgjac %s %s %s %s' % (fmt_func(inner), info_table(inner.kvs, grid, 1), fmt_func(g2), info_table(g2.kvs, P, 1)),
-                (lambda: comp.grid_jacobian(grid)), ('compgjac', g2, inner, grid))
-        grid = tuple(np.array(rand_coord(rng, g1.kvs[i], int(rng.integers(1, 3)))) for i in range(s1))
-        comp_requests(comp, g1, grid, 'comp')
-        if s1 >= 2:
-            bd = (int(rng.integers(0, s1)), int(rng.integers(0, 2)))
-            cb = comp.boundary(bd)
-            inner = g1.boundary(bd)
-            gb = tuple(np.array(rand_coord(rng, inner.kvs[i], int(rng.integers(1, 3)))) for i in range(s1 - 1))
-            comp_requests(cb, inner, gb, 'comp-bd')
-            # generic boundary restriction of the composition: _BoundaryFunction(comp, bd).grid_eval evaluates comp on the
-            # grid with the fixed coordinate inserted at `axis` (zyx) and squeezes that axis
-            bf = geometry._BoundaryFunction(comp, bd)
-            full = list(gb); full.insert(bd[0], np.array([float(g1.support[bd[0]][bd[1]])]))
-            XYb = np.asarray(g1.grid_eval(tuple(full)), dtype=float)
-            Pb = [XYb[..., e].ravel() for e in range(XYb.shape[-1])]
-            if all(0.0 <= p.min() and p.max() <= 1.0 for p in Pb):
-                add('compgeval %s %s %s' % (fmt_func(g2), info_table(g2.kvs, Pb, 0), plist(tuple(len(a) for a in gb))),
-                    (lambda bf=bf, gb=gb: bf.grid_eval(gb)), ('compgeval', g2, g1, tuple(full)))
-    # ---- more constructors: unit_cube / unit_square / identity / cylinderize / disk
-    for dim in (1, 2, 3):
-        for iv in ((1, 2, 3) if dim < 3 else (1, 2)):
-            S = np.linspace(0.0, 1.0, iv + 1)
-            add('unitcube %d %s' % (dim, plist(S.tolist(), frac)), (lambda dim=dim, iv=iv: geometry.unit_cube(dim=dim, num_intervals=iv)), ('op:unit_cube', dim, iv))
-        ext = [(float(rng.integers(-8, 1)) / 4, float(rng.integers(1, 9)) / 4) for _ in range(dim)]
-        add('identity %s' % plist(ext, lambda e: '%s %s' % (frac(e[0]), frac(e[1]))), (lambda ext=ext: geometry.identity(ext)), ('op:identity', ext))
-    add('unitcube 2 %s' % plist(np.linspace(0.0, 1.0, 3).tolist(), frac), (lambda: geometry.unit_square(2)), ('op:unit_cube', 2, 2))
-    for _ in range(6 if ctx.tier == 'quick' else 60):
-        f = rand_func(rng, int(rng.integers(1, 3)), 'bsp', [(), (1,), (2,)][int(rng.integers(0, 3))])
-        z0, z1 = float(rng.integers(-8, 9)) / 4, float(rng.integers(-8, 9)) / 4
-        add('cylinderize %s %s %s' % (fmt_func(f), frac(z0), frac(z1)),
-            monitored('cylinderize', [f], (lambda f=f, z0=z0, z1=z1: f.cylinderize(z0, z1, support=(0.25, 1.5)))), ('op:cylinderize', f, [z0, z1]))
-    for r in (1.0, 0.75, float(rng.integers(2, 17)) / 4):
-        angs = np.linspace(0, np.pi / 2, 3)
-        cs = [(np.cos(a), np.sin(a)) for a in angs]
-        add('disk %s %s %s %s %s %d' % (plist(cs, lambda p: '%s %s' % (frac(p[0]), frac(p[1]))), frac(np.cos(np.pi / 2 / 2)),
-                                        frac(np.sin(-np.pi / 2)), frac(np.cos(-np.pi / 2)), frac(r), 1 if r != 1.0 else 0),
-            (lambda r=r: geometry.disk(r)), ('op:disk', r))
-    # curve constructors
-    ncurve = 40 if ctx.tier == 'quick' else 400
-    for _ in range(ncurve):
-        d = int(rng.integers(1, 4)); iv = int(rng.integers(1, 5))
-        x0 = dyadic(rng, (d,), -8, 9, 4.0); x1 = dyadic(rng, (d,), -8, 9, 4.0)
-        S = np.linspace(0.0, 1.0, iv + 1)
-        add('lineseg %s %s %s' % (plist(x0.tolist(), frac), plist(x1.tolist(), frac), plist(S.tolist(), frac)),
-            monitored('line_segment', [x0, x1], (lambda x0=x0, x1=x1, iv=iv: geometry.line_segment(x0, x1, intervals=iv))), ('op:line_segment', x0, x1, iv))
-        r = float(rng.integers(1, 17)) / 4.0
-        for npt, fn, lo, hi in ((3, geometry.circular_arc_3pt, 0.05, math.pi - 0.05), (5, geometry.circular_arc_5pt, 0.05, 2 * math.pi),
-                                (7, geometry.circular_arc_7pt, 0.05, 2 * math.pi)):
-            alpha = float(rng.uniform(lo, hi))
-            angs = np.linspace(0, alpha, npt)
+            def comp_requests(comp, inner, grid, tag):
+                XY = np.asarray(inner.grid_eval(grid), dtype=float)
+                P = [XY[..., e].ravel() for e in range(XY.shape[-1])]
+                if any(p.min() < 0.0 or p.max() > 1.0 for p in P):
+                    return
+                add('compgeval %s %s %s' % (fmt_func(g2), info_table(g2.kvs, P, 0), plist(XY.shape[:-1])),
+                    (lambda: comp.grid_eval(grid)), ('compgeval', g2, inner, grid))
+                add('compgjac %s %s %s %s' % (fmt_func(inner), info_table(inner.kvs, grid, 1), fmt_func(g2), info_table(g2.kvs, P, 1)),
+                    (lambda: comp.grid_jacobian(grid)), ('compgjac', g2, inner, grid))
+            grid = tuple(np.array(rand_coord(rng, g1.kvs[i], int(rng.integers(1, 3)))) for i in range(s1))
+            comp_requests(comp, g1, grid, 'comp')
+            if s1 >= 2:
+                bd = (int(rng.integers(0, s1)), int(rng.integers(0, 2)))
+                cb = comp.boundary(bd)
+                inner = g1.boundary(bd)
+                gb = tuple(np.array(rand_coord(rng, inner.kvs[i], int(rng.integers(1, 3)))) for i in range(s1 - 1))
+                comp_requests(cb, inner, gb, 'comp-bd')
+                # generic boundary restriction of the composition: _BoundaryFunction(comp, bd).grid_eval evaluates comp on the
+                # grid with the fixed coordinate inserted at `axis` (zyx) and squeezes that axis
+                bf = geometry._BoundaryFunction(comp, bd)
+                full = list(gb); full.insert(bd[0], np.array([float(g1.support[bd[0]][bd[1]])]))
+                XYb = np.asarray(g1.grid_eval(tuple(full)), dtype=float)
+                Pb = [XYb[..., e].ravel() for e in range(XYb.shape[-1])]
+                xb = [float(a[0]) for a in reversed(gb)]      # single-point route (xyz order) at the first grid node
+                XY1 = np.asarray(g1.grid_eval(tuple(np.array([float(a[0])]) for a in full)), dtype=float)
+                P1 = [XY1[..., e].ravel() for e in range(XY1.shape[-1])]
+                if all(0.0 <= p.min() and p.max() <= 1.0 for p in P1):
+                    add('compgeval %s %s %s' % (fmt_func(g2), info_table(g2.kvs, P1, 0), plist(())),
+                        (lambda bf=bf, xb=xb: np.asarray(bf(*xb))), ('compgeval', g2, g1, tuple(np.array([float(a[0])]) for a in full)))
+                if all(0.0 <= p.min() and p.max() <= 1.0 for p in Pb):
+                    add('compgeval %s %s %s' % (fmt_func(g2), info_table(g2.kvs, Pb, 0), plist(tuple(len(a) for a in gb))),
+                        (lambda bf=bf, gb=gb: bf.grid_eval(gb)), ('compgeval', g2, g1, tuple(full)))
+        for _ in range(ncomp):
+            attempt('composed functions', one_composed)
+        # ---- more constructors: unit_cube / unit_square / identity / cylinderize / disk
+        for dim in (1, 2, 3):
+            for iv in ((1, 2, 3) if dim < 3 else (1, 2)):
+                S = np.linspace(0.0, 1.0, iv + 1)
+                add('unitcube %d %s' % (dim, plist(S.tolist(), frac)), (lambda dim=dim, iv=iv: geometry.unit_cube(dim=dim, num_intervals=iv)), ('op:unit_cube', dim, iv))
+            ext = [(float(rng.integers(-8, 1)) / 4, float(rng.integers(1, 9)) / 4) for _ in range(dim)]
+            add('identity %s' % plist(ext, lambda e: '%s %s' % (frac(e[0]), frac(e[1]))), (lambda ext=ext: geometry.identity(ext)), ('op:identity', ext))
+        add('unitcube 2 %s' % plist(np.linspace(0.0, 1.0, 3).tolist(), frac), (lambda: geometry.unit_square(2)), ('op:unit_cube', 2, 2))
+        for _ in range(6 if ctx.tier == 'quick' else 60):
+            f = rand_func(rng, int(rng.integers(1, 3)), 'bsp', [(), (1,), (2,)][int(rng.integers(0, 3))])
+            z0, z1 = float(rng.integers(-8, 9)) / 4, float(rng.integers(-8, 9)) / 4
+            add('cylinderize %s %s %s' % (fmt_func(f), frac(z0), frac(z1)),
+                monitored('cylinderize', [f], (lambda f=f, z0=z0, z1=z1: f.cylinderize(z0, z1, support=(0.25, 1.5)))), ('op:cylinderize', f, [z0, z1]))
+        for r in (1.0, 0.75, float(rng.integers(2, 17)) / 4):
+            angs = np.linspace(0, np.pi / 2, 3)
             cs = [(np.cos(a), np.sin(a)) for a in angs]
-            w = np.cos(alpha / (npt - 1))
-            add('arc %s %s %s' % (plist(cs, lambda p: '%s %s' % (frac(p[0]), frac(p[1]))), frac(w), frac(r)),
-                (lambda fn=fn, alpha=alpha, r=r: fn(alpha, r)), ('op:arc%d' % npt, alpha, r))
-        r1 = float(rng.integers(1, 9)) / 4.0; r2 = r1 + float(rng.integers(1, 9)) / 4.0
-        add('qannulus %s %s %s' % (frac(r1), frac(r2), frac(1.0 / np.sqrt(2.0))), (lambda r1=r1, r2=r2: geometry.quarter_annulus(r1, r2)),
-            ('op:quarter_annulus', r1, r2))
+            add('disk %s %s %s %s %s %d' % (plist(cs, lambda p: '%s %s' % (frac(p[0]), frac(p[1]))), frac(np.cos(np.pi / 2 / 2)),
+                                            frac(np.sin(-np.pi / 2)), frac(np.cos(-np.pi / 2)), frac(r), 1 if r != 1.0 else 0),
+                (lambda r=r: geometry.disk(r)), ('op:disk', r))
+        # curve constructors
+        ncurve = 40 if ctx.tier == 'quick' else 400
+        for _ in range(ncurve):
+            d = int(rng.integers(1, 4)); iv = int(rng.integers(1, 5))
+            x0 = dyadic(rng, (d,), -8, 9, 4.0); x1 = dyadic(rng, (d,), -8, 9, 4.0)
+            S = np.linspace(0.0, 1.0, iv + 1)
+            add('lineseg %s %s %s' % (plist(x0.tolist(), frac), plist(x1.tolist(), frac), plist(S.tolist(), frac)),
+                monitored('line_segment', [x0, x1], (lambda x0=x0, x1=x1, iv=iv: geometry.line_segment(x0, x1, intervals=iv))), ('op:line_segment', x0, x1, iv))
+            r = float(rng.integers(1, 17)) / 4.0
+            for npt, fn, lo, hi in ((3, geometry.circular_arc_3pt, 0.05, math.pi - 0.05), (5, geometry.circular_arc_5pt, 0.05, 2 * math.pi),
+                                    (7, geometry.circular_arc_7pt, 0.05, 2 * math.pi)):
+                alpha = float(rng.uniform(lo, hi))
+                angs = np.linspace(0, alpha, npt)
+                cs = [(np.cos(a), np.sin(a)) for a in angs]
+                w = np.cos(alpha / (npt - 1))
+                add('arc %s %s %s' % (plist(cs, lambda p: '%s %s' % (frac(p[0]), frac(p[1]))), frac(w), frac(r)),
+                    (lambda fn=fn, alpha=alpha, r=r: fn(alpha, r)), ('op:arc%d' % npt, alpha, r))
+            r1 = float(rng.integers(1, 9)) / 4.0; r2 = r1 + float(rng.integers(1, 9)) / 4.0
+            add('qannulus %s %s %s' % (frac(r1), frac(r2), frac(1.0 / np.sqrt(2.0))), (lambda r1=r1, r2=r2: geometry.quarter_annulus(r1, r2)),
+                ('op:quarter_annulus', r1, r2))
+    attempt('histories / binary operations / composed functions / constructors', gen_more)
     for nn in range(0, 6):
         add('hesspairs %d' % nn, None, ('hesspairs', nn))
 
@@ -875,7 +927,12 @@ def run(ctx):
         ctx.violation('mutation:' + name, 'operation %s altered one of its argument objects (byte snapshot differs)' % name, {'operation': name}, True)
 
     # ---- model-free oracle cross-checks (support the search; tests, not proofs)
-    oracle_checks(ctx, funcs)
+    try:
+        oracle_checks(ctx, funcs)
+    except Exception as ex:
+        import traceback
+        ctx.violation('geo-oracle:exception', 'the model-free cross-checks raised %s: %s (an exception coming out of pyiga on a valid input)'
+                      % (type(ex).__name__, str(ex)[:200]), {'traceback': traceback.format_exc()[-2000:]}, True)
     lap('oracle cross-checks')
 
 
@@ -1189,6 +1246,25 @@ def oracle_unary(name, f, rng):
             d = same(g, (lambda v: v + arg) if name == 'translate' else (lambda v: v * arg), '%s(%s)' % (name, np.asarray(arg).tolist()))
             if d: return d
         return None
+    if name == 'apply_matrix[array]':
+        N = tuple(kv.numdofs for kv in f.kvs)
+        for ab in (N, N[1:], (1,) * n, tuple(1 if i % 2 else k for i, k in enumerate(N))):
+            AB = (np.arange(int(np.prod(ab, dtype=int)) * 2 * dim_out).reshape(tuple(ab) + (2, dim_out)) % 7 - 3) / 2.0
+            g = f.apply_matrix(AB)
+            Ab = np.broadcast_to(AB, N + (2, dim_out))
+            if nb:
+                C, W = f.coeffs_weights()
+                got = g.coeffs[..., :-1] / g.coeffs[..., -1:]
+            else:
+                C = f.coeffs; got = g.coeffs
+            want = np.empty(N + (2,))
+            for I in np.ndindex(*N):
+                want[I] = Ab[I].dot(C[I])
+            if np.shape(got) != want.shape or not np.allclose(got, want, rtol=1e-12, atol=1e-12):
+                return ('apply_matrix(A) with A of shape %s (one matrix per control point): control points of the result have shape %s, '
+                        'expected A[I].c[I] of shape %s; first mismatch %s vs %s'
+                        % (AB.shape, np.shape(got), want.shape, np.asarray(got).ravel()[:4].tolist(), want.ravel()[:4].tolist()))
+        return None
     if name in ('apply_matrix', 'rotate_2d'):
         if name == 'rotate_2d':
             ang = 0.625
@@ -1296,6 +1372,13 @@ def oracle_checks(ctx, funcs):
 
     def report(key, d, replay):
         ctx.violation(key, d, replay, True)
+
+    def safe(fn, *a, **kw):
+        """an exception raised by pyiga (or by the exact evaluation of an object it returned) is a finding, not a crash"""
+        try:
+            return fn(*a, **kw)
+        except Exception as ex:
+            return '%s raised %s: %s' % (getattr(fn, '__name__', 'oracle'), type(ex).__name__, str(ex)[:200])
     idx = rng.permutation(len(funcs))[:nor]
     for i in idx:
         f = funcs[i]
@@ -1308,11 +1391,11 @@ def oracle_checks(ctx, funcs):
             report('geo-oracle:routes', d, describe(('routes', f, pts, grid)))
         if n >= 2 and f.coeffs.ndim - n <= 1:
             bd = (int(rng.integers(0, n)), int(rng.integers(0, 2)))
-            d = oracle_boundary_function(f, bd, rng)
+            d = safe(oracle_boundary_function, f, bd, rng)
             count += 1
             if d:
                 report('geo-oracle:boundary-function', d, describe(('bdfun', f, bd)))
-            d = oracle_support_restriction(f, rng)
+            d = safe(oracle_support_restriction, f, rng)
             count += 1
             if d:
                 report('geo-oracle:support-restriction', d, describe(('support', f)))
@@ -1325,7 +1408,7 @@ def oracle_checks(ctx, funcs):
             continue
         names = ['translate', 'scale', 'as_nurbs', 'copy', 'boundary', 'as_vector']
         if len(vs) == 1 and not (is_nurbs(f) and f._isscalar):
-            names += ['apply_matrix', 'getitem']
+            names += ['apply_matrix', 'apply_matrix[array]', 'getitem']
             if ((vs[0] - 1) if is_nurbs(f) else vs[0]) == 2:
                 names.append('rotate_2d')
         if is_nurbs(f):
@@ -1391,17 +1474,17 @@ def oracle_checks(ctx, funcs):
         cases = [(geometry.circular_arc_3pt, float(rng.uniform(0.01, math.pi - 0.01))), (geometry.circular_arc_5pt, float(rng.uniform(0.01, 2 * math.pi))),
                  (geometry.circular_arc_7pt, float(rng.uniform(0.01, 2 * math.pi))), (geometry.circular_arc, float(rng.uniform(0.01, 2 * math.pi)))]
         for fn, alpha in cases:
-            d = oracle_circle(fn(alpha, r), r, alpha, '%s(%r, %r)' % (fn.__name__, alpha, r), nt=17)
+            d = safe(lambda: oracle_circle(fn(alpha, r), r, alpha, '%s(%r, %r)' % (fn.__name__, alpha, r), nt=17))
             count += 1
             if d:
                 report('geo-oracle:' + fn.__name__, d, {'alpha': alpha, 'r': r})
-        d = oracle_circle(geometry.circle(r), r, 2 * math.pi, 'circle(%r)' % r, nt=24) or \
-            oracle_circle(geometry.semicircle(r), r, math.pi, 'semicircle(%r)' % r, nt=16)
+        d = safe(lambda: oracle_circle(geometry.circle(r), r, 2 * math.pi, 'circle(%r)' % r, nt=24) or
+                 oracle_circle(geometry.semicircle(r), r, math.pi, 'semicircle(%r)' % r, nt=16))
         count += 2
         if d:
             report('geo-oracle:circle', d, {'r': r})
         r1 = float(rng.uniform(0.1, 2.0)); r2 = r1 + float(rng.uniform(0.1, 2.0))
-        d = oracle_quarter_annulus(r1, r2)
+        d = safe(oracle_quarter_annulus, r1, r2)
         count += 1
         if d:
             report('geo-oracle:quarter_annulus', d, {'r1': r1, 'r2': r2})
@@ -1437,21 +1520,39 @@ def oracle_checks(ctx, funcs):
     count += 1
     if uf(0.25, 0.5) != poly(0.25, 0.5) or uf.pointwise_eval((np.array([0.25]), np.array([0.5])))[0] != poly(0.25, 0.5):
         report('geo-oracle:userfunction', 'UserFunction __call__/pointwise_eval', {})
-    # _BoundaryFunction of a user function: f with the coordinate of `axis` fixed at the end of the support
-    ufb = geometry.UserFunction(lambda x, y, z: (poly(x, y, z), x - z), [(0.0, 1.0), (0.5, 2.0), (-1.0, 1.0)], jac=None)
-    for bd, fix in ((('left'), ('x', -1.0)), (('top'), ('y', 2.0)), ((0, 0), ('z', 0.0)), ((2, 1), ('x', 1.0))):
-        bfu = geometry._BoundaryFunction(ufb, bd)
-        a, b2 = 0.25, 0.75
-        args = {'x': None, 'y': None, 'z': None}
-        free = [k for k in ('x', 'y', 'z') if k != fix[0]]
-        args[fix[0]] = fix[1]; args[free[0]] = a; args[free[1]] = b2
-        want = (poly(args['x'], args['y'], args['z']), args['x'] - args['z'])
-        got = bfu(a, b2)
-        ge = bfu.grid_eval((np.array([b2]), np.array([a])))
-        count += 1
-        if tuple(np.asarray(got, dtype=float).ravel()) != want or tuple(np.asarray(ge, dtype=float).ravel()) != want:
-            report('geo-oracle:boundary-function-user', '_BoundaryFunction(UserFunction, %r)(%r, %r) = %s / grid_eval %s, expected f with %s = %r: %s'
-                   % (bd, a, b2, np.asarray(got).tolist(), np.asarray(ge).tolist(), fix[0], fix[1], list(want)), {'bdspec': bd})
+    # generic boundary functions of user functions, dims 2-3, every bdspec (names and pairs): the single-point route,
+    # the grid route and the parent at the embedded point must agree (exact: the same callable is evaluated)
+    def user_boundary_checks():
+        n_checked = 0
+        for dim in (2, 3):
+            supp = [(float(rng.integers(-4, 1)) / 4, float(rng.integers(1, 9)) / 4) for _ in range(dim)]      # zyx order
+            def parent(*x):
+                return (x[0] + 2 * x[1] * x[1] - 3 * x[-1] * x[0], sum((k + 2) * t for k, t in enumerate(x)))
+            uf_ = geometry.UserFunction(parent, supp)
+            names = ['left', 'right', 'bottom', 'top', 'front', 'back'][:2 * dim]
+            for bd in names + [(ax, sd) for ax in range(dim) for sd in (0, 1)]:
+                axis, side = bspline._parse_bdspec(bd, dim)
+                bf = uf_.boundary(bd)
+                rest = [i for i in range(dim) if i != axis]
+                for _ in range(2):
+                    zyx = [supp[i][0] + (supp[i][1] - supp[i][0]) * float(rng.integers(0, 9)) / 8 for i in range(dim)]
+                    zyx[axis] = supp[axis][side]
+                    want = tuple(float(t) for t in parent(*reversed(zyx)))
+                    xb = [zyx[i] for i in reversed(rest)]
+                    got = tuple(np.asarray(bf(*xb), dtype=float).ravel())
+                    ge = tuple(np.asarray(bf.grid_eval(tuple(np.array([zyx[i]]) for i in rest)), dtype=float).ravel())
+                    n_checked += 1
+                    if got != want or ge != want:
+                        return n_checked, ('UserFunction(dim %d, support %s).boundary(%r): single-point route %s%s = %s, grid route = %s, parent at the embedded point %s = %s'
+                                           % (dim, supp, bd, type(bf).__name__, tuple(xb), list(got), list(ge), tuple(reversed(zyx)), list(want)))
+        return n_checked, None
+    try:
+        k, d = user_boundary_checks()
+    except Exception as ex:
+        k, d = 1, 'boundary of a UserFunction raised %s: %s' % (type(ex).__name__, str(ex)[:200])
+    count += k
+    if d:
+        report('geo-oracle:boundary-function-user', d, {})
     # ComposedFunction: values and chain rule against the exact composition
     for _ in range(max(4, nor // 4)):
         g1 = rand_func(rng, int(rng.integers(1, 3)), 'bsp', (2,))
